@@ -139,6 +139,22 @@ def cow_write_set(ctx):
                                'Meta.num_pages is stored at %s from a value that is not the old mark plus the run length' % where, where=where))
             else:
                 res.append(ok(rule, 'high-water mark advanced by addition at %s' % where, sites=1))
+    # (e) the mark a transaction allocates from moves only there (and only upwards, see above): lowering it anywhere else hands out, as fresh, pages that the
+    # committed tree or an open reader still uses
+    allowed = {txalloc_raw.qual} | set(getattr(txalloc, 'inlined', []) or [])
+    nst = 0
+    for f in sorted(ctx.facts.fns, key=lambda g: g.path):
+        for bb, si, st in stores_to_field(f, 'Meta', 'num_pages'):
+            fs = [e for e in st['p']['pr'] if e['k'] == 'field']
+            if len(fs) < 2 or not fs[-2].get('adt') or last_seg(fs[-2]['adt']) != 'TxFreelist':
+                continue
+            nst += 1
+            if f.qual not in allowed:
+                res.append(bad(rule, '%s | high-water mark changed outside the allocation wrapper' % f.qual,
+                               '%s stores TxFreelist.meta.num_pages at %s; only the allocation wrapper (%s) may move the mark pages are allocated from, and only upwards'
+                               % (f.qual, f.loc(bb, si), txalloc_raw.qual), where=f.loc(bb, si)))
+    if nst and not any(not r.ok and 'outside the allocation wrapper' in r.key for r in res):
+        res.append(ok(rule, 'the allocation mark TxFreelist.meta.num_pages is stored only in %s (%d sites)' % (', '.join(sorted(allowed)), nst), sites=nst))
     return res
 
 
@@ -482,6 +498,9 @@ def run(ctx, tier):
     results += c12.validate_before_trust(ctx, rule='C02.validate-before-trust')
     import c15
     results += c15.legacy_fallback(ctx, rule='C02.legacy-conversion')
+    import profile
+    results += profile.debug_pure(ctx, 'C02.debug-pure')
+    results += c12.header_extent(ctx, rule='C02.header-extent')
     return dict(
         results=results,
         stats=dict(ctx.stats),
